@@ -572,6 +572,27 @@ class World:
         p.v_world = self
         d = self.cur
         p.v_origin = d.src if d is not None else None
+        # one connection of one client = one connection state: a datagram that belongs to a connection the server
+        # already serves (same peer address, same client source connection ID in the long header) must reach THAT state
+        p.v_client_key = None
+        if d is not None and d.data and d.data[0] & 0x80:
+            try:
+                dl = d.data[5]
+                sl = d.data[6 + dl]
+                p.v_client_key = (tuple(d.src[:2]), bytes(d.data[7 + dl: 7 + dl + sl]))
+            except IndexError:
+                pass
+        if p.v_client_key is not None:
+            for q in self.sprotos:
+                if getattr(q, "v_client_key", None) == p.v_client_key and q.v_terminated is None:
+                    self.violate(
+                        "routing.second_state_for_live_connection",
+                        "the server created a second connection state (%s) for a datagram of a connection it already serves "
+                        "as %s (same peer address %s, same client source connection ID): a connection ID the server "
+                        "issued does not lead to the live connection"
+                        % (p.v_name, q.v_name, self.net.names.get(d.src, d.src)),
+                        api="QuicServer.datagram_received", retry=bool(self.sc["retry"]))
+                    break
         self.sprotos.append(p)
         self.issued[p] = set()
         self.note("server creates connection state %s for a datagram from %s"
